@@ -253,13 +253,22 @@ func (s *settings) GetBySwampName(swampName name.Name) setting.Setting {
 	s.mu.RLock()
 	defer s.mu.RUnlock()
 
-	if len(s.patterns) > 0 {
-		for _, pi := range s.patterns {
-			// compare if the pattern is math with the swamp name
-			if swampName.ComparePattern(pi.GetPattern()) {
-				return pi
+	// Several registered patterns can match the same swamp (e.g. "a/*/*" and "a/b/*").
+	// Go randomises map iteration, so returning the first match would make the result
+	// differ from call to call. The most specific matching pattern wins:
+	// exact realm and swamp > exact realm, any swamp > any realm, exact swamp > any realm and swamp.
+	var best setting.Setting
+	bestSpecificity := -1
+	for _, pi := range s.patterns {
+		// compare if the pattern is math with the swamp name
+		if swampName.ComparePattern(pi.GetPattern()) {
+			if sp := patternSpecificity(pi.GetPattern()); sp > bestSpecificity {
+				best, bestSpecificity = pi, sp
 			}
 		}
+	}
+	if best != nil {
+		return best
 	}
 
 	// ha nem találunk olyan beállítást, ami a megadott mintához tartozik, akkor visszaadjuk az alapértelmezett beállítást
@@ -272,6 +281,19 @@ func (s *settings) GetBySwampName(swampName name.Name) setting.Setting {
 		InMemory:          false,
 	})
 
+}
+
+// patternSpecificity orders the patterns that can match one swamp name: an exact realm
+// outweighs an exact swamp name, a wildcard ("*") counts nothing.
+func patternSpecificity(pattern name.Name) int {
+	specificity := 0
+	if pattern.GetRealmName() != "*" {
+		specificity += 2
+	}
+	if pattern.GetSwampName() != "*" {
+		specificity++
+	}
+	return specificity
 }
 
 func (s *settings) CallbackAtChanges(f func()) chan bool {
